@@ -48,6 +48,7 @@ class Ctx:
         self.keep = []
         self.efflog = []       # for the C06 oracle only (not compared with the model)
         self.live = set()      # schedulers past their enter and not yet exited
+        self.entering = set()  # schedulers inside their own enter phase (programs with "enter_effects" only)
         self.skew = []         # (kind, id, own view of tyme, Doist's tyme) where they differ
 
     def ev(self, kind, i, own=None):
@@ -64,8 +65,8 @@ class Ctx:
 
     def effects(self, caller, es):
         for e in es:
-            if e[1] not in self.live:   # target scheduler not running: outside the program class
-                continue
+            if e[1] not in self.live and not (self.prog.get("enter_effects") and e[1] in self.entering):
+                continue                # target scheduler not running: outside the program class
             target = self.objs[e[1]]
             lst = [self.objs[j] for j in e[2]]
             # the argument may be the scheduler's own live .doers list or a lazy iterable over it (4th element)
@@ -75,6 +76,8 @@ class Ctx:
             inv = {id(o): i for i, o in self.objs.items()}
             rec = {"kind": e[0], "target": e[1], "ids": list(e[2]), "caller": caller, "start": len(self.log),
                    "before": [inv.get(id(o), -1) for o in target.doers]}
+            if e[1] in self.entering:
+                rec["phase"] = "enter"      # issued from a doer's enter context while the target enters its doers
             self.efflog.append(rec)
             try:
                 if e[0] == "ext":
@@ -102,7 +105,12 @@ def _build(ctx, i):
             def enter(self, doers=None, *, temp=None):
                 if doers is None:
                     ctx.ev("Enter", i)
-                r = super().enter(doers=doers, temp=temp)
+                    ctx.entering.add(i)
+                try:
+                    r = super().enter(doers=doers, temp=temp)
+                finally:
+                    if doers is None:
+                        ctx.entering.discard(i)
                 if doers is None:
                     ctx.live.add(i)
                 return r
@@ -272,7 +280,13 @@ def run_prog(prog):
                 raise RuntimeError("harness cycle budget exceeded")
             return super().recur(deeds=deeds)
         def enter(self, doers=None, *, temp=None):
-            r = super().enter(doers=doers, temp=temp)
+            if doers is None:
+                ctx.entering.add(0)
+            try:
+                r = super().enter(doers=doers, temp=temp)
+            finally:
+                if doers is None:
+                    ctx.entering.discard(0)
             if doers is None:
                 ctx.live.add(0)
             return r
@@ -453,7 +467,7 @@ EK = {"Enter", "Recur", "Clean", "Cease", "Abort", "Exit", "ExtRet", "RemRet", "
 def outside_model(prog):
     """Programs the Coq model does not express (decided by the direct oracle only): a doer whose
     clean/cease/abort/exit context itself raises."""
-    return (any(d.get("hookraise") for d in prog["defs"].values())
+    return (any(d.get("hookraise") for d in prog["defs"].values()) or bool(prog.get("enter_effects"))
             or bool(prog.get("manual") and prog["manual"]["then"] != "exit"))
 
 
@@ -1023,23 +1037,29 @@ def gen_remove_live(rng, n):
 
 def gen_remove_hookraise(rng, n):
     """One remove() of live doers one of which raises in its own cease or exit context (outside the Coq model: oracle
-    only): the call raises, but the doers it force-closed are removed all the same."""
+    only): the call raises, but the doers it force-closed are removed all the same, and every removed doer is closed."""
     out = []
-    for _ in range(n):
-        p = gen_static(rng, n_leaves=rng.randint(3, 6), nest_depth=rng.choice([0, 1]), faults=False, tocks="dyadic", limit_p=1.0)
+    while len(out) < n:
+        p = gen_static(rng, n_leaves=rng.randint(4, 7), nest_depth=rng.choice([0, 1, 1]), faults=False, tocks="dyadic", limit_p=1.0)
         p["limit"] = abs(p["limit"]) if p["limit"] else 4 * p["tock"]
         targets = [(0, list(p["doers"]))] + [(int(i), list(d["kids"])) for i, d in p["defs"].items() if d["kind"] == "nest"]
-        t, members = rng.choice([x for x in targets if len(x[1]) >= 2] or targets[:1])
-        leaves = [m for m in members if p["defs"][str(m)]["kind"] != "nest"]
-        if len(leaves) < 2:
+        leafy = lambda ms: [m for m in ms if p["defs"][str(m)]["kind"] != "nest"]
+        good = [x for x in targets if len(leafy(x[1])) >= 3]
+        nests = [x for x in good if x[0] != 0]
+        if not good:
             continue
+        t, members = rng.choice(nests) if nests and rng.random() < 0.7 else rng.choice(good)
+        leaves = leafy(members)
         if t != 0:
             p["defs"][str(t)]["always"] = True
         c = rng.choice(leaves)
-        victims = [m for m in leaves if m != c]
-        rng.shuffle(victims)
-        victims = victims[:rng.randint(1, len(victims))]
-        bad = rng.choice(victims)
+        victims = [m for m in leaves if m != c]          # in enter order
+        k = rng.randint(2, len(victims))
+        victims = sorted(rng.sample(victims, k), key=victims.index)
+        bad = rng.choice(victims[1:] if rng.random() < 0.6 else victims)   # mostly not the first entered
+        arg = list(victims)
+        if rng.random() < 0.5:
+            rng.shuffle(arg)
         for v in victims:                  # alive and suspended when the remove comes
             p["defs"][str(v)]["script"] = [{"es": [], "out": ["y", None]} for _ in range(8)]
         p["defs"][str(bad)]["hookraise"] = rng.choice(["cease", "exit"])
@@ -1047,6 +1067,46 @@ def gen_remove_hookraise(rng, n):
         sc_ = p["defs"][str(c)]["script"]
         while len(sc_) < 3:
             sc_.insert(0, {"es": [], "out": ["y", None]})
-        sc_[rng.randint(1, len(sc_) - 1)]["es"].append(["rem", t, victims])
+        sc_[rng.randint(1, len(sc_) - 1)]["es"].append(["rem", t, arg])
+        out.append(p)
+    return out
+
+
+def gen_enter_effects(rng, n):
+    """A doer whose ENTER context calls extend()/remove() on the scheduler that is just entering its doers (outside
+    the Coq model, whose effects act on running schedulers only: oracle only)."""
+    out = []
+    Y = lambda: {"es": [], "out": ["y", None]}
+    while len(out) < n:
+        p = gen_static(rng, n_leaves=rng.randint(3, 6), nest_depth=rng.choice([0, 1]), faults=False, tocks="dyadic", limit_p=1.0)
+        p["limit"] = abs(p["limit"]) if p["limit"] else 4 * p["tock"]
+        p["enter_effects"] = True
+        targets = [(0, list(p["doers"]))] + [(int(i), list(d["kids"])) for i, d in p["defs"].items() if d["kind"] == "nest"]
+        leafy = lambda ms: [m for m in ms if p["defs"][str(m)]["kind"] != "nest"]
+        good = [x for x in targets if len(leafy(x[1])) >= 2]
+        if not good:
+            continue
+        t, members = rng.choice(good)
+        if t != 0:
+            p["defs"][str(t)]["always"] = True
+        leaves = leafy(members)
+        c = rng.choice(leaves)
+        if rng.random() < 0.6:
+            nxt = max(int(i) for i in p["defs"]) + 1
+            new = []
+            for k in range(rng.randint(1, 2)):
+                p["defs"][str(nxt + k)] = {"kind": rng.choice(["func", "bound", "doer", "doergen"]),
+                                           "script": [Y() for _ in range(rng.randint(1, 4))] + [{"es": [], "out": ["r", "true"]}]}
+                new.append(nxt + k)
+            arg = list(new)
+            if rng.random() < 0.3:
+                arg.append(rng.choice(leaves))           # an already listed doer: nothing happens for it
+            if rng.random() < 0.3:
+                arg.append(new[0])                       # named twice
+            eff = ["ext", t, arg]
+        else:
+            others = [m for m in leaves if m != c]
+            eff = ["rem", t, [rng.choice(others + [c])]]  # entered earlier, not yet entered, or itself
+        p["defs"][str(c)]["script"][0]["es"].append(eff)
         out.append(p)
     return out
